@@ -67,6 +67,7 @@ class atom(boolean.AndRestriction):
         "cpvstr",
         "op",
         "blocks",
+        "blocks_strongly",
         "negate_vers",
         "use",
         "slot",
@@ -307,6 +308,7 @@ class atom(boolean.AndRestriction):
                 self.cpvstr,
                 self.op,
                 self.blocks,
+                self.blocks_strongly,
                 negate_vers,
                 self.use,
                 self.slot,
